@@ -114,7 +114,7 @@ prop(
     rule=("N seeded scenarios per shard, each with ~40-80 probes; evaluations = probes judged or compared; a scenario is "
           "non-trivial if at least one judged probe is decided by a pattern (ignored or re-included) and distinct by its "
           "judged verdict vector"),
-    tiers={"quick": {"shards": NC, "budget": 40, "min_evaluations": 20000}, "thorough": {"shards": NC, "budget": 400}},
+    tiers={"quick": {"shards": NC, "budget": 120, "min_evaluations": 20000}, "thorough": {"shards": NC, "budget": 400}},
 )
 
 ENGINES.append({"name": "simjob", "path": "harness/simjob", "serves_properties": ["C04", "C06", "C07", "C09", "C10"],
@@ -256,7 +256,7 @@ prop(
     level_note="the reference evaluator is the one validated against git in C03; trees are readable (no permission faults)",
     technique="reference-model monitor (independent walker) over generated real directory trees + listing-order metamorphic relation",
     rule="evaluations = trees; non-trivial = discovery returned >=2 files, distinct by the set of returned paths",
-    tiers={"quick": {"shards": NC, "budget": 30, "min_evaluations": 1500}, "thorough": {"shards": NC, "budget": 300}},
+    tiers={"quick": {"shards": NC, "budget": 90, "min_evaluations": 1500}, "thorough": {"shards": NC, "budget": 300}},
 )
 
 prop(
@@ -424,7 +424,7 @@ prop(
     engine="wxlib",
     needs_vchild=True,
     needs_cli=True,
-    extra={"script": "wxcli.py", "shards": 4},
+    extra={"script": "wxcli.py", "shards": 4, "quick_budget": 25},
     level="exploration",
     level_text=("library part: generated Commands — Exec{helper, args} with arguments from a hostile pool (empty string, spaces, quotes, "
                 "$VAR, globs, ;, newlines, tabs, multi-byte, 4 KiB) and Shell{prog = the helper itself, options, program_option in "
@@ -436,7 +436,7 @@ prop(
     level_note="the helper takes its own settings from the environment so that the entire argument vector is under test",
     technique="differential monitor at the process boundary: the child reports what it received, compared byte for byte with the configuration",
     rule="evaluations = spawns; non-trivial = >=1 argument, distinct by (mode, wrap, argument bytes)",
-    tiers={"quick": {"shards": 8, "budget": 25, "min_evaluations": 2000}, "thorough": {"shards": NC, "budget": 240}},
+    tiers={"quick": {"shards": 8, "budget": 60, "quota": 400, "min_evaluations": 2000}, "thorough": {"shards": NC, "budget": 240}},
 )
 
 PROPS["C08"]["extra"] = {"script": "wxcli.py", "shards": 4}
